@@ -283,7 +283,7 @@ func (e *Exec) evalExpr(x ast.Expr, env *SpecEnv) (v Val, err error) {
 				return Val{}, err
 			}
 		}
-		return termVal(u.MkSlice(xt.Sort, u.SArr(xt), Arith("+", u.SOff(xt), lo), Arith("-", hi, lo))), nil
+		return termVal(u.SubSlice(xt, lo, hi)), nil
 	case *ast.SelectorExpr:
 		xt, err := tm(x.X)
 		if err != nil {
@@ -405,6 +405,9 @@ func (e *Exec) specCall(st *State, fn *ssa.Function, args []Term) (Term, error) 
 	if fn.Signature.Results().Len() != 1 {
 		return Term{}, fmt.Errorf("%s: spec functions must have one result", key)
 	}
+	for i := range args {
+		args[i] = e.name("a_"+fn.Params[i].Name(), args[i])
+	}
 	rs := e.p.sortOf(fn.Signature.Results().At(0).Type())
 	if e.p.specRec[key] {
 		name := "spec_" + sanitize(key)
@@ -417,13 +420,14 @@ func (e *Exec) specCall(st *State, fn *ssa.Function, args []Term) (Term, error) 
 		if e.binder > 0 {
 			return app, nil
 		}
-		if d, seen := e.specApps[app.S]; seen && d <= e.unfold {
+		if d, seen := e.specApps[app.S]; seen && d <= e.unfold && e.relevant(e.specAppBlk[app.S], e.curBlock) {
 			return app, nil
 		}
 		if e.unfold >= e.fuel {
 			return app, nil
 		}
 		e.specApps[app.S] = e.unfold
+		e.specAppBlk[app.S] = e.curBlock
 		e.unfold++
 		body, err := e.runPure(st, fn, args)
 		e.unfold--
